@@ -93,10 +93,18 @@ def seeded_variants(pid):
     """Confirmed sub-agent changes kept under /verif/seeded/<PID>-<k>/patch.diff (each must make the check fire)."""
     d = os.path.join(core.VERIF, "seeded")
     out = []
+    und = {}
+    if os.path.exists(os.path.join(d, "UNDETECTED.json")):
+        import json
+        und = json.load(open(os.path.join(d, "UNDETECTED.json"))).get("undetected", {})
     if os.path.isdir(d):
         for name in sorted(os.listdir(d)):
             if name.startswith(pid + "-") and os.path.exists(os.path.join(d, name, "patch.diff")):
-                out.append({"name": "seeded/" + name, "patch": os.path.join(d, name, "patch.diff")})
+                v = {"name": "seeded/" + name, "patch": os.path.join(d, name, "patch.diff")}
+                if name in und:
+                    v["expect"] = "silent"
+                    v["name"] += " (declared undetected)"
+                out.append(v)
     return out
 
 
